@@ -45,6 +45,61 @@ def ext_max(ex, st, args, kwargs, node):
     return z3.If(a >= b, a, b)
 
 
+def lex_before(cell, cur):
+    """Lexicographic `cell < cur` over equally long lists of integer terms."""
+    out = z3.BoolVal(False)
+    for c, v in reversed(list(zip(cell, cur))):
+        out = z3.Or(c < v, z3.And(c == v, out))
+    return out
+
+
+def cells_done(now, upto, coords):
+    """Progress of a nest of loops over array dimensions, written without reference to the nesting order.
+
+    `coords` maps (array parameter, axis) -> the coordinate of the cell along that dimension, e.g.
+    {("rates", 0): r, ("times", 0): t}.  `upto` is the ordinal of the loop whose invariant is being stated and its index
+    term.  Returns the condition "the iteration that handles this cell comes before the current position" in the
+    lexicographic order of the loops that are active; loops that run over something else make it Unsupported."""
+    ordinal, i = upto
+    cell, cur = [], []
+    for k in now.active_loops() + ([ordinal] if ordinal not in now.active_loops() else []):
+        if k > ordinal:
+            continue
+        over = now.loop_over(k)
+        if over not in coords:
+            raise wp.Unsupported(f"loop {k} does not run over one of {sorted(coords)} (code restructured?)")
+        cell.append(coords[over])
+        cur.append(i if k == ordinal else now.loopvar(k))
+    return lex_before(cell, cur)
+
+
+def accumulated(now, upto, coords, sum_dim, n_terms, S):
+    """Value accumulated so far into a cell by a nest of loops one of which (over `sum_dim`) adds one term per iteration.
+
+    S(g) is the ghost prefix sum of the first g terms for this cell.  Whatever the nesting order, the terms added to one
+    cell so far form a prefix: all `n_terms` if the cell's coordinates along the loops *outside* the summing loop come
+    before the current ones, none if they come after, and if they are equal the first v (or v + 1, when the cell's
+    coordinates along the loops *inside* it come before the current ones) - v being the summing loop's variable."""
+    ordinal, i = upto
+    act = [k for k in now.active_loops() if k <= ordinal]
+    if ordinal not in act:
+        act.append(ordinal)
+    dims = [now.loop_over(k) for k in act]
+    vals = [i if k == ordinal else now.loopvar(k) for k in act]
+    for d in dims:
+        if d != sum_dim and d not in coords:
+            raise wp.Unsupported(f"a loop runs over {d}, not over one of {sorted(coords)} or {sum_dim} (code restructured?)")
+    if sum_dim in dims:
+        p = dims.index(sum_dim)
+        outer_c, outer_v = [coords[d] for d in dims[:p]], vals[:p]
+        inner_c, inner_v = [coords[d] for d in dims[p + 1 :]], vals[p + 1 :]
+        same_outer = z3.And(*[c == v for c, v in zip(outer_c, outer_v)]) if outer_c else z3.BoolVal(True)
+        here = z3.If(lex_before(inner_c, inner_v), S(vals[p] + 1), S(vals[p])) if inner_c else S(vals[p])
+        return z3.If(lex_before(outer_c, outer_v), S(n_terms), z3.If(same_outer, here, S(0)))
+    cell = [coords[d] for d in dims]
+    return z3.If(lex_before(cell, vals), S(n_terms), S(0))
+
+
 def records(spec, contract_name, timeout_s=10.0, prefix=""):
     """Prove one function against its contract; static-obligation records for the report."""
     fq = spec.name
@@ -53,6 +108,10 @@ def records(spec, contract_name, timeout_s=10.0, prefix=""):
     except wp.Unsupported as e:
         return [{"name": f"{prefix}extraction", "ok": False, "undecided": True, "detail": f"outside the accepted subset: {e}", "function": fq, "backend": "z3-wp", "strength": "U"}]
     out = []
+    # A refuted obligation is a *verdict* only when the proof skeleton still fits the code: if an invariant, a call
+    # precondition or a loop-entry obligation is not proved, the recorded invariants no longer describe the (possibly
+    # harmlessly restructured) code and nothing follows about the property - everything of this function is undecided.
+    skeleton_ok = all(o.status == "proved" for o in obls if not (o.name.startswith("post.") or o.name.startswith("frame.") or o.name.startswith("index_in_bounds") or "prange" in o.name))
     if notes.get("vacuous"):
         out.append({"name": f"{prefix}hypotheses_are_not_contradictory", "ok": False, "engine": True, "function": fq, "backend": "z3-wp", "strength": "U", "detail": f"`False` follows from the hypotheses of {notes['vacuous']} (contradictory requires / invariant / callee contract)"})
     merged = {}
@@ -62,7 +121,9 @@ def records(spec, contract_name, timeout_s=10.0, prefix=""):
         bad = [o for o in group if o.status == "refuted"]
         unk = [o for o in group if o.status == "unknown"]
         rec = {"name": f"{prefix}{name}", "function": fq, "backend": group[0].backend or "z3-wp", "strength": "U", "case": "all sizes", "detail": f"{len(group)} path(s); {notes}", "time_s": round(sum(o.time_s for o in group), 4)}
-        if bad:
+        if bad and not skeleton_ok:
+            rec.update(ok=False, undecided=True, detail="not proved, and the invariants recorded for this function are no longer inductive for its code (restructured loops?): no verdict from the all-sizes contract")
+        elif bad:
             m = bad[0].model
             rec.update(ok=False, detail=f"refuted for all-sizes contract; counter-model (first 12 symbols): " + ", ".join(f"{d.name()}={m[d]}" for d in list(m.decls())[:12]))
         elif unk:
@@ -89,6 +150,8 @@ def crosscheck(spec, make_args, runs=6, seed=0):
             got = wp.run_concrete(spec, copy.deepcopy(args))
         except wp.Unsupported as e:
             return [{"name": "engine_agrees_with_cpython_on_concrete_inputs", "ok": False, "undecided": True, "detail": f"concrete mode: {e}", "function": spec.name, "backend": "cpython-crosscheck", "strength": "B"}]
+        except Exception as e:  # the real function (or the executor) raised on a valid input: no cross-check possible
+            return [{"name": "engine_agrees_with_cpython_on_concrete_inputs", "ok": False, "undecided": True, "detail": f"{type(e).__name__}: {e} on input {k}", "function": spec.name, "backend": "cpython-crosscheck", "strength": "B"}]
         done += 1
         for n, kind in spec.params:
             if isinstance(kind, str) and kind.startswith("arr"):
